@@ -13,6 +13,9 @@ def main():
     ap.add_argument("--replay", default=None)
     a = ap.parse_args()
     seed = int(os.environ.get("VERIF_SEED", "0") or 0)
+    if os.environ.get("VERIF_REPO"):
+        import rl_blox
+        print(f"[experiment] analysing {os.path.dirname(rl_blox.__file__)} instead of /repo")
     mod = importlib.import_module(f"props.{a.prop}")
     if a.replay:
         sys.exit(mod.replay(a.replay))
